@@ -79,6 +79,7 @@ type runner struct {
 	minSig   string
 	minText  string
 	shrunk   map[string]string // crash signature -> canonical schedule text
+	reach    map[string]bool   // hook site -> reached by the probe
 	stats    map[string]int
 	hooks    map[string]int
 }
@@ -99,6 +100,8 @@ func (r *runner) judge(s Script, h *HistRec) {
 	}
 	r.stats["duplicate_deliveries"] += h.Dups
 	r.stats["pings_seen"] += h.Pings
+	r.stats["comments_seen"] += h.Comments
+	r.stats["other_frames"] += h.Other
 	r.mu.Unlock()
 	text := s.Text()
 	bad := false
@@ -365,7 +368,8 @@ func (r *runner) reportCrash(cr crash) {
 // Run is the C19 check.
 func Run(c *core.Ctx) {
 	c.Rule = "cases = schedule scripts (sub/cancel/send, hook gates at deliver/registered, stalled and failing writers) run against the real sse.Handler; ~40 forced schedules + seeded random compositions of 5 episode kinds (free churn, gated deliveries, stalled client, registration gate, write failure; <=12 clients, <=10 broadcasts); one evaluation = one executed schedule judged by all monitors; non-trivial = a client left while a delivery for it was parked or in flight (a broadcast issued strictly inside its connected interval never reached it, or the process died in the delivery goroutine); distinct by hash of (schedule, observed history)"
-	c.Assume("client boundary: Sub returns at the first ping the client's writer observed; Unsub returns when ServeHTTP returned; receivers of a broadcast are collected after quiescence (all delivery goroutines finished and a bounded wait for the expected writes)")
+	c.Assume("client boundary: Sub returns at the first bytes (any frame: comment, keep-alive or event) the client's writer received from ServeHTTP; Unsub returns when ServeHTTP returned; receivers of a broadcast are collected after quiescence (goroutine count back to baseline + live handlers, then a barrier event written by every live client)")
+	c.Assume("the client parses the stream as text/event-stream (comments ignored, event/data/id/retry fields, data lines joined, events without data not dispatched); only events whose data carries the history's own prefix are judged, keep-alives and other implementation-chosen frames are counted, never judged; no wait depends on the keep-alive period")
 	c.Assume("stable clients (never disconnected by the schedule) must receive every broadcast issued after their subscription returned; per-client ordering and duplicates are not judged")
 	c.Assume("hook sites registered/deliver/unregistered (build tag verif) only delay the calling goroutine")
 	dir, err := os.MkdirTemp("", "verif-c19-")
@@ -409,11 +413,29 @@ func Run(c *core.Ctx) {
 		return
 	}
 
+	// 0. probe: which hook sites does this implementation have? A site that
+	// no longer exists (e.g. no per-event delivery goroutine any more) cannot
+	// be parked at; schedules that need it are skipped and counted, everything
+	// else still runs and decides.
+	r.probe()
+
 	// 1. the canonical minimal schedule, then all forced schedules
 	min := MinimalCrashScript()
 	r.minText = min.Text()
-	r.minSig = r.crashesOnce("minimal", min)
-	forced := forcedScripts()
+	if r.reach["deliver"] {
+		r.minSig = r.crashesOnce("minimal", min)
+	}
+	var forced []Script
+	nForced := 0
+	for _, s := range forcedScripts() {
+		nForced++
+		if r.unreachable(s) {
+			r.add("schedules_skipped_site_unreachable", 1)
+			continue
+		}
+		s.Idx = len(forced)
+		forced = append(forced, s)
+	}
 	hist, crashes := r.runChunk("forced", forced, 0)
 	for _, cr := range crashes {
 		r.reportCrash(cr)
@@ -423,7 +445,8 @@ func Run(c *core.Ctx) {
 			r.judge(s, h)
 		}
 	}
-	c.Set("forced_schedules", len(forced))
+	c.Set("forced_schedules", nForced)
+	c.Set("forced_schedules_run", len(forced))
 	c.Set("forced_schedules_completed", len(hist))
 
 	// 2. random histories, in chunks spread over worker goroutines (one child each)
@@ -449,7 +472,7 @@ func Run(c *core.Ctx) {
 				rnd := c.Rand(fmt.Sprintf("hist-%d", j.n))
 				var ss []Script
 				for i := j.from; i < j.to; i++ {
-					ss = append(ss, randomScript(rnd, i-j.from))
+					ss = append(ss, randomScript(rnd, i-j.from, r.reach))
 				}
 				hist, crashes := r.runChunk(fmt.Sprintf("rnd%d", j.n), ss, 0)
 				for _, cr := range crashes {
@@ -475,6 +498,54 @@ func Run(c *core.Ctx) {
 	wg.Wait()
 	c.Set("random_histories", total)
 	r.finish()
+}
+
+// probe runs ProbeScript in a child and records which hook sites were reached.
+func (r *runner) probe() {
+	c := r.c
+	p := ProbeScript()
+	r.reach = map[string]bool{}
+	hist, crashes := r.runChunk("probe", []Script{p}, 0)
+	for _, cr := range crashes {
+		r.minSig, r.minText = "", ""
+		r.reportCrash(cr)
+	}
+	h := hist[0]
+	if h == nil {
+		if len(crashes) == 0 {
+			core.Infra("the probe schedule produced no result")
+		}
+		// the probe itself crashed the implementation: assume every site, the schedules will tell
+		for _, s := range []string{"registered", "deliver", "unregistered"} {
+			r.reach[s] = true
+		}
+		return
+	}
+	r.judge(p, h)
+	for _, s := range []string{"registered", "deliver", "unregistered"} {
+		r.reach[s] = h.Hooks[s] > 0
+		c.Set("hook_site_"+s+"_reachable", r.reach[s])
+		if !r.reach[s] {
+			switch s {
+			case "deliver":
+				c.Assume("hook site \"deliver\" is not reached by this implementation (no per-client delivery goroutine to park): the forced 'delivery parked while the client leaves' windows were NOT exercised; disconnects racing deliveries are only explored through writer stalls, cancels and ungated churn")
+			case "registered":
+				c.Assume("hook site \"registered\" is not reached by this implementation: the 'cancel before registration completes' window was NOT forced")
+			default:
+				c.Assume("hook site \"unregistered\" is not reached by this implementation (it is only observed, never parked at)")
+			}
+		}
+	}
+}
+
+// unreachable: the script parks at a site the probe never saw.
+func (r *runner) unreachable(s Script) bool {
+	for _, site := range s.sitesNeeded() {
+		if !r.reach[site] {
+			return true
+		}
+	}
+	return false
 }
 
 func (r *runner) finish() {
@@ -511,8 +582,10 @@ func (r *runner) finish() {
 	}
 	for _, site := range []string{"registered", "deliver", "unregistered"} {
 		c.Set("hook_events_"+site, r.hooks[site])
-		if r.hooks[site] == 0 && r.stats["crashes"] == 0 && c.ReplayFile == "" {
-			c.Inconclusive("hook site " + site + " was never reached: is the harness built with -tags verif?")
+	}
+	for _, k := range []string{"schedules_skipped_site_unreachable", "pings_seen", "comments_seen", "other_frames"} {
+		if _, ok := r.stats[k]; !ok {
+			c.Set(k, 0)
 		}
 	}
 	if r.minSig != "" {
